@@ -194,8 +194,7 @@ func (a *Adversary) MakeBlock(ref *Node, idx int, variant int) *advBlock {
 				break
 			}
 		}
-		c.Signatures = sigs
-		commit = c
+		commit = types.NewCommit(c.Height, c.Round, c.BlockID, sigs) // (Copy would keep the cached hash of the original)
 		hd.LastCommitHash = common.Hash{}
 		valid = false
 	case 9: // last commit claims another round (signatures no longer match)
@@ -209,6 +208,36 @@ func (a *Adversary) MakeBlock(ref *Node, idx int, variant int) *advBlock {
 		valid = false
 	case 10: // proposer unknown to the validator set
 		hd.ProposerAddress = common.HexToAddress("0xdeadbeef")
+		valid = false
+	case 11: // last commit whose LAST present signature is forged (the adversary's key) over a doctored timestamp;
+		// everything else is made consistent with it (block time = weighted median, commit hash): only checking
+		// every signature - also those after the point where +2/3 is reached - rejects the block
+		if len(commit.Signatures) == 0 || st.LastValidators == nil {
+			return nil
+		}
+		c := commit.Copy()
+		sigs := append([]types.CommitSig(nil), c.Signatures...)
+		k := -1
+		for i := range sigs {
+			if !sigs[i].Absent() {
+				k = i
+			}
+		}
+		if k < 0 {
+			return nil
+		}
+		var voted types.BlockID
+		if sigs[k].ForBlock() {
+			voted = c.BlockID
+		}
+		ts := sigs[k].Timestamp.Add(37 * time.Millisecond)
+		v := &types.Vote{Type: kproto.PrecommitType, Height: c.Height, Round: c.Round, BlockID: voted, Timestamp: ts,
+			ValidatorAddress: sigs[k].ValidatorAddress, ValidatorIndex: uint32(k)}
+		sigs[k].Timestamp = ts
+		sigs[k].Signature = a.SignVoteChain(a.Net.ChainID, idx, v)
+		commit = types.NewCommit(c.Height, c.Round, c.BlockID, sigs) // (Copy would keep the cached hash of the original)
+		hd.LastCommitHash = common.Hash{}
+		hd.Time = RefWeightedMedian(commit, RefSetFrom(st.LastValidators))
 		valid = false
 	}
 	blk := types.NewBlock(hd, txs, commit, base.Evidence().Evidence, trie.NewStackTrie(nil))
@@ -308,7 +337,7 @@ func (a *Adversary) Act(r *rand.Rand) {
 		case y < 6:
 			variant = 1
 		default:
-			variant = 2 + r.Intn(9)
+			variant = 2 + r.Intn(10)
 		}
 		ab := a.MakeBlock(ref, b, variant)
 		if ab == nil {
